@@ -589,8 +589,20 @@ def run(ctx):
     got11 = None
     if inv_kw is not None:
         from ..canon import canon_node as _cn11
+        # the parameter the bounds are computed for: the variable of the loop / comprehension the call sits in
+        var11 = None
+        for o_ in ast.walk(up11.node):
+            tg_ = o_.generators[0].target if isinstance(o_, (ast.DictComp, ast.ListComp, ast.GeneratorExp, ast.SetComp)) else (o_.target if isinstance(o_, ast.For) else None)
+            if tg_ is not None and any(x_ is drb[0] for x_ in ast.walk(o_)):
+                # `for p in parameters` or `for p, pp in zip(parameters, prime_parameters)`: the physical parameter comes first
+                tg_ = tg_.elts[0] if isinstance(tg_, ast.Tuple) and tg_.elts else tg_
+                if isinstance(tg_, ast.Name):
+                    var11 = tg_.id
+
         class _Sub11(ast.NodeTransformer):
             def visit_Name(self, n_):
+                if var11 is not None and n_.id == var11:
+                    return ast.copy_location(ast.Name(id="p", ctx=n_.ctx), n_)
                 return _copy11.deepcopy(inl11[n_.id]) if isinstance(n_.ctx, ast.Load) and n_.id in inl11 else n_
 
         got11 = _pred_lits(_cn11(_Sub11().visit(_copy11.deepcopy(inv_kw))))
